@@ -12,6 +12,8 @@ use serde_json::{json, Value};
 pub struct C15Case {
     pub lang: &'static str,
     pub text: String,
+    /// tokenise every prefix of the text, one after the other, with the same `Lang` (typing)
+    pub typing: bool,
 }
 
 /// 15-character adversarial alphabet per language (exhaustive space)
@@ -32,7 +34,7 @@ pub fn decode_small(src: &mut Source) -> Box<dyn Case> {
     let alpha = small_alphabet(lang);
     let n = src.below(6);
     let text: String = (0..n).map(|_| alpha[src.below(alpha.len())]).collect();
-    Box::new(C15Case { lang, text })
+    Box::new(C15Case { lang, text, typing: false })
 }
 
 pub fn enumerate_small(maxlen: usize) -> Box<dyn Iterator<Item = Vec<u32>> + Send> {
@@ -83,7 +85,8 @@ pub fn decode_random(src: &mut Source) -> Box<dyn Case> {
             (0..n).map(|_| gen_any_char(src)).collect()
         }
     };
-    Box::new(C15Case { lang, text })
+    let typing = src.chance(1, 10);
+    Box::new(C15Case { lang, text, typing })
 }
 
 pub fn check_tokens(ctx: &mut Ctx, lang_code: &str, text: &str, t: &TextOwn, is_query: bool, table: &std::collections::BTreeMap<(char, char), char>) -> Result<(), Violation> {
@@ -158,7 +161,7 @@ pub fn check_tokens(ctx: &mut Ctx, lang_code: &str, text: &str, t: &TextOwn, is_
 
 impl Case for C15Case {
     fn describe(&self) -> Value {
-        json!({"lang": self.lang, "text": show(&self.text), "codepoints": self.text.chars().map(|c| format!("{:04X}", c as u32)).collect::<Vec<_>>().join(" ")})
+        json!({"lang": self.lang, "typed_keystroke_by_keystroke": self.typing, "text": show(&self.text), "codepoints": self.text.chars().map(|c| format!("{:04X}", c as u32)).collect::<Vec<_>>().join(" ")})
     }
     fn key(&self) -> u64 {
         hash64(self)
@@ -166,6 +169,17 @@ impl Case for C15Case {
     fn check(&self, ctx: &mut Ctx) -> Result<(), Violation> {
         let l = lang_of(self.lang);
         let table = compose_table_for(self.lang);
+        if self.typing {
+            // keystroke by keystroke with one language object: its scratch buffers see the previous
+            // (shorter) text every time
+            let cs: Vec<char> = self.text.chars().collect();
+            for n in 1..cs.len() {
+                let t: String = cs[..n].iter().collect();
+                let tq = tokenize_query(&t, &l);
+                check_tokens(ctx, self.lang, &t, &tq, true, table)?;
+            }
+            ctx.label("typed-keystroke-by-keystroke");
+        }
         let tr = tokenize_record(&self.text, &l);
         let tq = tokenize_query(&self.text, &l);
         check_tokens(ctx, self.lang, &self.text, &tr, false, table)?;
